@@ -413,6 +413,26 @@ def r19_8_code_slice_zero_pad(repo: Repo, rep: Report):
         rep.check("R19.8", len(raw) == 1, mm, f, f"{q}: {len(raw)} raw slice(s) of the concrete prefix", "fast path vanished or duplicated")
         slow = [r for r in body_walk(f) if isinstance(r, ast.Return) and "self._code.slice(start, stop)" in src(r.value)]
         rep.check("R19.8", bool(slow), mm, f, f"{q}: falls back to self._code.slice(start, stop)", "no zero-padding fallback")
+    # round 7: the same holds in every other method of Contract (e.g. a 'native' operand read in the decoder)
+    reviewed = {"slice", "unwrapped_slice"}
+    for c in m.tree.body:
+        if isinstance(c, ast.ClassDef) and c.name == "Contract":
+            for f in c.body:
+                if not isinstance(f, (ast.FunctionDef, ast.AsyncFunctionDef)) or f.name in reviewed:
+                    continue
+                for n in ast.walk(f):
+                    if not (isinstance(n, ast.Subscript) and isinstance(n.slice, ast.Slice)):
+                        continue
+                    try:
+                        o = origin_text(m, f, n.value).replace("$", "")
+                    except Exception:
+                        o = src(n.value)
+                    if o not in ("self._fastcode",):
+                        continue
+                    gs = {guard_text(t, pol).replace(" ", "") for t, pol in guards_at(m, n)}
+                    upper = src(n.slice.upper).replace(" ", "") if n.slice.upper is not None else None
+                    ok = upper is not None and any(g in (f"{upper}<len(self._fastcode)", f"{upper}<=len(self._fastcode)", f"{upper}<len({src(n.value)})", f"{upper}<=len({src(n.value)})") for g in gs)
+                    rep.check("R19.8", ok, m, n, f"contract.Contract.{f.name}: {src(n)} under {sorted(gs)}", "a raw slice of the concrete prefix must be limited to reads that end inside it (Python truncates, the EVM zero-pads: a PUSH cut off by the end of the code reads zeros)")
     stops = [s for s in body_walk(fn) if isinstance(s, ast.Assign) and src(s.targets[0]) == "stop"]
     rep.check("R19.8", bool(stops) and src(stops[0].value) in ("start + size", "size + start"), m, stops[0] if stops else fn, src(stops[0]) if stops else "stop = ?", "Contract.slice(start, size) must read start .. start+size")
 
